@@ -19,7 +19,7 @@ RULE = ("Hypothesis-generated histories (1-30 ops) on a pool of 1-4 maps; addres
         "followed by a successful implicit placement on the same map, and >=1 explicit placement "
         "below the highest range already placed in that map. Distinct = distinct canonical JSON.")
 BUDGET = {"quick": (16, 1500), "thorough": (16, 40000)}
-ESSENTIAL = ["name_reused_after_refusal", "fail_then_implicit_ok", "explicit_before_existing", "touch_end", "dense_ratio_gt1",
+ESSENTIAL = ["bulk_fill_over_256", "huge_address_space", "name_reused_after_refusal", "fail_then_implicit_ok", "explicit_before_existing", "touch_end", "dense_ratio_gt1",
              "frozen_add_refused", "window_ok", "grey_zone"]
 ASSUMPTIONS = [
     "resource/window names are unique counters, so a namespace conflict is never the reason for a refusal (C18 covers names)",
@@ -49,6 +49,8 @@ def _addr():
         (1, st.tuples(st.sampled_from(["start", "end"]), st.integers(0, 7), st.integers(-2, 2)).map(list)),
         (1, st.tuples(st.sampled_from(["start", "end"]), st.integers(0, 7), st.sampled_from([-8, -4, -1, 0, 0, 1, 4])).map(list)),
         (1, st.tuples(st.just("slot"), st.integers(0, 9)).map(list)),
+        (1, st.tuples(st.just("top"), st.integers(0, 300)).map(list)),
+        (1, st.tuples(st.just("fracplus"), st.integers(1, 15), st.integers(1, 300)).map(list)),
         (1, st.tuples(st.just("bad"), st.sampled_from(["neg", "str", "float", "huge"])).map(list)),
     )
 
@@ -91,7 +93,7 @@ def _spec(draw, tier):
     maps = []
     for i in range(nmaps):
         if i == 0:
-            aw = draw(st.integers(3, 10))
+            aw = draw(st.integers(3, 10)) if draw(st.integers(0, 7)) else draw(st.sampled_from([40, 54, 60, 64]))
             dw = draw(st.sampled_from([8, 16, 32, 32, 64, 24, 48]))
         else:
             aw = draw(st.integers(1, max(1, min(6, maps[0]["aw"] - 1))))
@@ -101,6 +103,9 @@ def _spec(draw, tier):
     regs = draw(st.sampled_from([False, False, False, True]))
     lo = draw(st.integers(1, 20 if tier == "quick" else 35))
     ops = draw(st.lists(_op(nmaps), min_size=lo, max_size=lo + 10))
+    # one case in 25 starts with a long run of implicit placements on map 0 (several hundred ranges)
+    if not regs and maps[0]["aw"] >= 10 and draw(st.integers(0, 24)) == 0:
+        ops = [["bulk", 0, draw(st.integers(258, 280))]] + ops[:8]
     return {"maps": maps, "regs": regs, "ops": ops}
 
 
@@ -155,6 +160,10 @@ def _resolve_addr(a, mm, unit):
         return a[1], False
     if kind == "frac":
         return (a[1] << mm.aw) // 16, False
+    if kind == "top":
+        return max(0, (1 << mm.aw) - a[1]), False
+    if kind == "fracplus":
+        return ((a[1] << mm.aw) // 16 + a[2]) % (1 << mm.aw), False
     if kind == "bad":
         return BAD[a[1]], a[1] != "huge"
     if kind == "slot":
@@ -173,6 +182,7 @@ def check(spec, stats):
     new_res = _reg if spec["regs"] else Res
     placements = 0
     failed_on = set()
+    stats.label("huge_address_space", spec["maps"][0]["aw"] >= 54)
 
     retry = {}
 
@@ -194,6 +204,16 @@ def check(spec, stats):
         if win != ewin:
             raise Violation("C02/report/windows", f"{where}: windows() = {win}, model = {ewin}")
         its = mm.items
+        if len(its) > 64:
+            # long maps: sort by start and compare neighbours (still no code shared with memory.py)
+            srt = sorted(its, key=lambda it: it[3])
+            for a, b in zip(srt, srt[1:]):
+                if a[4] > b[3]:
+                    raise Violation("C02/overlap", f"{where}: {a[3:5]} overlaps {b[3:5]}")
+            for a in srt:
+                if a[3] < 0 or a[4] > (1 << mm.aw) or a[4] <= a[3]:
+                    raise Violation("C02/bounds", f"{where}: range {a[3:5]} outside [0, 2**{mm.aw})")
+            return
         for a in range(len(its)):
             if its[a][3] < 0 or its[a][4] > (1 << mm.aw) or its[a][4] <= its[a][3]:
                 raise Violation("C02/bounds", f"{where}: range {its[a][3:5]} outside [0, 2**{mm.aw})")
@@ -310,6 +330,33 @@ def check(spec, stats):
                         must = "ok" if valid else "raise"
                     attempt(i, fn, where, must=must, predict=start, kind="res", obj=obj, name=name,
                             min_span=span, explicit=start)
+        elif k == "bulk":
+            # a long run of implicit single-unit placements (maps with several hundred ranges); checked
+            # call by call against the model, full verification once at the end
+            if mm.frozen:
+                continue
+            for j in range(op[2]):
+                obj = new_res()
+                counter[0] += 1
+                name = (f"n{counter[0]}",)
+                start = align_up(mm.cursor, mm.al)
+                span = align_up(1, mm.al)
+                valid = start + span <= (1 << mm.aw) and not mm.overlaps(start, start + span)
+                try:
+                    ret = m.add_resource(obj, name=name, size=1)
+                except Exception as e:
+                    if valid:
+                        raise Violation("C02/legal-call-refused", f"{where} #{j} ({len(mm.items)} ranges present): implicit "
+                                        f"placement at {start:#x} refused with {type(e).__name__}: {e}")
+                    break
+                if not valid:
+                    raise Violation("C02/illegal-call-accepted", f"{where} #{j}: returned {ret!r}")
+                if ret != (start, start + span):
+                    raise Violation("C02/placement", f"{where} #{j}: placed at {ret}, expected {(start, start + span)}")
+                mm.items.append(["res", obj, name, start, start + span, 1])
+                mm.cursor = start + span
+                placements += 1
+            stats.label("bulk_fill_over_256", len(mm.items) > 257)
         elif k == "res_again":
             if not isinstance(op[2], int):
                 continue
